@@ -47,10 +47,43 @@ def make_est(spec, register=True, rec=None):
     if rec is not None:
         rec.trans()
     if register:
-        est.register_system(sources, lb=arr(spec.get("lb")), ub=arr(spec.get("ub")))
+        route, lb0, ub0 = registration_route(spec)
+        if route == "ub-later":
+            # bounds registered in two steps: a provisional upper bound with the system, the real one alone afterwards
+            # (register_bounds updates the bound it is given and keeps the other one)
+            est.register_system(sources, lb=arr(spec.get("lb")), ub=arr(ub0))
+            est.register_bounds(ub=arr(spec.get("ub")))
+        elif route == "lb-later":
+            est.register_system(sources, lb=arr(lb0), ub=arr(spec.get("ub")))
+            est.register_bounds(lb=arr(spec.get("lb")))
+        else:
+            est.register_system(sources, lb=arr(spec.get("lb")), ub=arr(spec.get("ub")))
         if rec is not None:
-            rec.trans()
+            rec.trans(1 if route == "direct" else 2)
     return est
+
+
+def registration_route(spec):
+    """how the bounds of this system get registered: 'direct' (with the system) or in two steps through register_bounds
+    ('ub-later' / 'lb-later').  A deterministic function of the spec (a quarter of the systems with both bounds given each),
+    so that every check that builds estimators also covers the partial bound update; the resulting state is the same."""
+    import hashlib
+    import json
+
+    lb, ub = spec.get("lb"), spec.get("ub")
+    if lb is None or ub is None:
+        return "direct", None, None
+    n = len(spec["A"][0])
+    lbv = np.broadcast_to(np.asarray(lb, dtype=float), (n,))
+    ubv = np.broadcast_to(np.asarray(ub, dtype=float), (n,))
+    if not (np.all(np.isfinite(lbv)) and np.all(lbv >= 0) and np.all(ubv > lbv) and np.any(lbv > 0)):
+        return "direct", None, None
+    h = int(hashlib.sha1(json.dumps(spec, sort_keys=True).encode()).hexdigest(), 16) % 4
+    if h == 0:
+        return "ub-later", None, (lbv + 7.0).tolist()
+    if h == 2:
+        return "lb-later", (lbv * 0.0).tolist(), None
+    return "direct", None, None
 
 
 def script_est(spec):
@@ -71,7 +104,15 @@ def script_est(spec):
     def b(v):
         return "None" if v is None else (repr(v) if isinstance(v, (int, float)) else "np.array(%r)" % (v,))
 
-    lines.append("est.register_system(sources, lb=%s, ub=%s)" % (b(spec.get("lb")), b(spec.get("ub"))))
+    route, lb0, ub0 = registration_route(spec)
+    if route == "ub-later":
+        lines.append("est.register_system(sources, lb=%s, ub=%s)" % (b(spec.get("lb")), b(ub0)))
+        lines.append("est.register_bounds(ub=%s)" % b(spec.get("ub")))
+    elif route == "lb-later":
+        lines.append("est.register_system(sources, lb=%s, ub=%s)" % (b(lb0), b(spec.get("ub"))))
+        lines.append("est.register_bounds(lb=%s)" % b(spec.get("lb")))
+    else:
+        lines.append("est.register_system(sources, lb=%s, ub=%s)" % (b(spec.get("lb")), b(spec.get("ub"))))
     return "\n".join(lines) + "\n"
 
 
